@@ -111,6 +111,21 @@ def check(model, rep, tier):
             {'counterexample': cex}, line=fi.node.lineno,
             witness='if c: obj.attr = obj.attr + 1 with obj.attr not read again '
             'in the function')
+  # fn_scope.nonlocals / globals are read from the scope recorded per function:
+  # for a def that must be its BODY_SCOPE (the def statement's own scope has no
+  # declarations)
+  vfd = cls.methods.get('visit_FunctionDef')
+  okb = vfd is not None and any(
+      isinstance(a, ast.Assign) and core.norm(a.targets[0]).endswith('.scope') and
+      'NodeAnno.BODY_SCOPE' in core.norm(a.value) and
+      core.norm(a.value).startswith('anno.getanno(%s' % vfd.params()[0])
+      for a in ast.walk(vfd.node))
+  rep.check(okb, 'SETSEL', '%s:function-scope-is-body-scope' % (
+      vfd.site if vfd else cls.site),
+            'the scope kept for the innermost function must be the BODY_SCOPE of '
+            'the def: its nonlocals / globals decide which variables can never '
+            'be input-only', line=vfd.node.lineno if vfd else None,
+            witness='def g(): nonlocal cnt; if c: cnt += 1')
   o, cex = implies(state.f, M)
   rep.check(o, 'SETSEL', '%s:state⊆modified' % fi.site,
             'only variables the block can change are carried',
@@ -314,6 +329,8 @@ def check(model, rep, tier):
   rep.depends('C08', None,
               'the state of a block is selected from the read / modified sets and '
               'from liveness, both built on what the activity analysis visits')
+  rep.depends('C17', ['TREE-LITERAL'],
+              'the variables in the generated get_state / set_state are built by QN.ast() from the qualified names of the state')
   rep.depends('C03', ['GETSET', 'QN-SUPPORT'],
               'a tracing backend touches variables only through get_state / '
               'set_state (and ldu for composites); composites enter the state '
